@@ -81,7 +81,7 @@ class World:
         import subprocess
 
         bd = self.d / "build"
-        args = ["--build_dir", bd, "--noexec_ninja"] + opt_flags(self.opts) + [str(p) for p in self.sources()]
+        args = ["--build_dir", bd, "--noexec_ninja"] + opt_flags(self.opts) + self.inputs()
         rc, out = build.run_cli(args, cwd=self.d, env=fault_env())
         if rc != 0:
             return
@@ -96,7 +96,9 @@ class World:
             text = ninjafile.command_text(rules, e)
             ins = e["ins"] + e["implicit"]
             for i in ins:
-                if i not in text:
+                # a SOURCE the edge reads must be named by its command (removing or renaming it then changes the command
+                # and dirties the edge); intermediates have fixed names and are kept up to date by their own edges
+                if i not in text and i not in producer:
                     probs.append(f"input {i} of {e['outs'][0]} is not named by the command line or response file")
             if any("/src/" in o or o.startswith("../") for o in e["outs"]):
                 probs.append(f"output {e['outs'][0]} lies among the sources")
@@ -143,6 +145,11 @@ class World:
     # ---- edits
     def sources(self):
         return sorted((self.d / getattr(self, "srcdir", "src")).glob("*.svg"))
+
+    def inputs(self):
+        """what the command line names: the source files, or (a multi-master build) a configuration file"""
+        cfg = getattr(self, "config", None)
+        return [str(cfg)] if cfg else [str(p) for p in self.sources()]
 
     def fresh_name(self):
         self.next_cp += 1
@@ -220,7 +227,7 @@ class World:
         marker = self.d / f"marker{len(self.log)}"
         if fault:
             fault = dict(fault, marker=str(marker))
-        args = ["--build_dir", self.d / build_dir] + opt_flags(self.opts) + [str(p) for p in self.sources()]
+        args = ["--build_dir", self.d / build_dir] + opt_flags(self.opts) + self.inputs()
         rc, out = build.run_cli(args, cwd=self.d, env=fault_env(fault, self.behaviour))
         fired = marker.exists()
         if fault and fired and fault.get("mode") == "truncate_kill" and fault.get("output"):
@@ -477,6 +484,31 @@ def directed_bitmap_options(w):
     ]
 
 
+def directed_variable_font(w):
+    """a two-master configuration, then options changed between invocations (they reach the masters and the variable
+    font only through the configuration files written into the build directory)"""
+    def setk(k, v):
+        def f(w):
+            w.opts[k] = v
+            w.log.append(dict(op="setopt", key=k, value=v))
+
+        return f
+
+    def to_two_masters(w):
+        for m in ("thin", "bold"):
+            (w.d / m).mkdir()
+            for p in w.sources():
+                (w.d / m / p.name).write_text(p.read_text())
+        w.config = w.d / "vf.toml"
+        w.config.write_text('output_file="Font.ttf"\nreuse_tolerance=-1.0\n[axis.wght]\nname="Weight"\ndefault=100\n[master.thin]\nstyle_name="Thin"\nsrcs=["thin/*.svg"]\n'
+                            '[master.thin.position]\nwght=100\n[master.bold]\nstyle_name="Bold"\nsrcs=["bold/*.svg"]\n[master.bold.position]\nwght=700\n')
+        w.log.append(dict(op="switch to a two-master configuration file"))
+
+    first = w.rng.choice([("width", 1000), ("upem", 2048), ("family", "Other Fam")])
+    second = w.rng.choice([("color_format", "glyf_colr_0"), ("version_major", 3), ("ascender", 900)])
+    return [([to_two_masters], None), ([setk(*first)], None), ([setk(*second)], None)]
+
+
 def directed_pngquant_declines(w):
     """pngquant declines the re-rendered bitmap (exit 99: quality too low / result larger): the wrapper must
     replace the earlier output by the unquantised bitmap, in the incremental build as in the clean one"""
@@ -552,7 +584,7 @@ def main(argv):
     n = 6 if tier == "quick" else 120
     seeds = [rng.getrandbits(40) for _ in range(n)]
     jobs = [(s, rng.randint(2, 4 if tier == "quick" else 6), None) for s in seeds]
-    jobs += [(rng.getrandbits(40), 0, directed_f17), (rng.getrandbits(40), 0, directed_f17_silent), (rng.getrandbits(40), 0, directed_f7), (rng.getrandbits(40), 0, directed_options), (rng.getrandbits(40), 0, directed_bitmap), (rng.getrandbits(40), 0, directed_bitmap_options), (rng.getrandbits(40), 0, directed_pngquant_declines), (rng.getrandbits(40), 0, directed_torn_graph), (rng.getrandbits(40), 0, directed_switch_dir)]
+    jobs += [(rng.getrandbits(40), 0, directed_f17), (rng.getrandbits(40), 0, directed_f17_silent), (rng.getrandbits(40), 0, directed_f7), (rng.getrandbits(40), 0, directed_options), (rng.getrandbits(40), 0, directed_bitmap), (rng.getrandbits(40), 0, directed_bitmap_options), (rng.getrandbits(40), 0, directed_variable_font), (rng.getrandbits(40), 0, directed_pngquant_declines), (rng.getrandbits(40), 0, directed_torn_graph), (rng.getrandbits(40), 0, directed_switch_dir)]
     with ThreadPoolExecutor(8) as ex:
         results = list(ex.map(lambda j: run_history(*j), jobs))
     known = known_ids("C09")
